@@ -148,8 +148,41 @@ def generate(rng, tier):
     hot = rng.randrange(NPAGES)
     npg = rng.choice([2, 3, 4, NPAGES])
     wr = rng.choice([0.2, 0.4, 0.4, 0.6])
+    # read-ahead next to dirty pages: a page that is cached and dirty lies in the read-ahead window of
+    # a page that is read while the cache still has room (the prefetch must leave it alone)
+    neigh = rng.random() < 0.25
+    if neigh:
+        ra = rng.choice([1, 1, 2, 3])
+        cap = rng.choice([2, 3, 3, 4, 5])
     t = 0
     ops = []
+    lastw = None
+    if neigh and rng.random() < 0.4:
+        # prelude on the empty cache: dirty a page, then read one of the pages whose window covers it
+        q = rng.randrange(1, NPAGES)
+        back = min(q, rng.randrange(1, ra + 1))
+        ops.append([t, "write", q])
+        t += rng.choice([wl, rl + wl, 10, 20]) * MS
+        if rng.random() < 0.3:
+            ops.append([t, "read", q])
+            t += rng.choice([1, rl, 10]) * MS
+        ops.append([t, "read", q - back])
+        lastw = q
+    elif neigh:
+        # a page is written while the read-ahead that targets it is waiting for the disk: read p
+        # misses at t (disk read until t + rl), prefetch i waits from t + i*rl to t + (i+1)*rl
+        p0 = rng.randrange(0, NPAGES - 1)
+        i = rng.randrange(1, ra + 1)
+        if rng.random() < 0.3:
+            ops.append([t, "write", rng.randrange(NPAGES)])
+            t += rng.choice([wl, 10, 20]) * MS
+        ops.append([t, "read", p0])
+        off = i * rl * MS + rng.choice([0, 100_000, rl * MS // 2, rl * MS - 100_000, rl * MS])
+        ops.append([t + off, "write", min(NPAGES - 1, p0 + i)])
+        if rng.random() < 0.3:
+            ops.append([t + off + rng.choice([0, 100_000]), "write", min(NPAGES - 1, p0 + rng.randrange(1, ra + 1))])
+        t += off
+        lastw = min(NPAGES - 1, p0 + i)
     for _ in range(n):
         if style < 0.25:
             t += rng.choice([20, 25, 40]) * MS                      # sequential: nothing overlaps
@@ -159,8 +192,14 @@ def generate(rng, tier):
             t += rng.choice([0, 0, 100_000, rl * MS, wl * MS, abs(wl - rl) * MS, (rl + wl) * MS, 2 * rl * MS, 12 * MS])
         p = hot if rng.random() < 0.35 else rng.randrange(npg)
         r = rng.random()
+        if neigh and lastw is not None and rng.random() < 0.4:
+            back = rng.randrange(1, ra + 1)
+            if lastw >= back:
+                ops.append([t, "read" if rng.random() < 0.8 else "write", lastw - back])
+                continue
         if r < wr:
             ops.append([t, "write", p])
+            lastw = p
         elif r < 0.88:
             ops.append([t, "read", p])
         else:
